@@ -322,4 +322,25 @@ Section Facts.
       intros e [<-|Hin]; [|now apply H]. specialize (NC x eq_refl).
       destruct x; simpl; [tauto|]. intros _. now apply (NC p).
   Qed.
+
+  Lemma invariant_all rep d0 t0 (ops : list op) sf out :
+    Forall op_ok ops -> run rep (init d0 t0) ops = (sf, out) ->
+    forall b g l, file sf = Some (b, g) -> decode g = Some l ->
+      b <= now sf /\ (exists d, alive (hist sf) (now sf) b d /\ l = gen d) /\
+      (exists p d, In (b, d, Served p l false) out).
+  Proof.
+    intros F R. pose proof (Good_run rep d0 t0 ops F) as G. rewrite R in G. exact (proj1 (proj2 G)).
+  Qed.
+
+  Lemma pinned_always_answers d0 t0 (ops : list op) :
+    Forall no_damage ops ->
+    forall e, In e (snd (run false (init d0 t0) ops)) -> ~ is_crash e.
+  Proof.
+    intros F. apply (pinned_never_crashes_undamaged ops (init d0 t0, [])); simpl; auto.
+    intros b g H. discriminate.
+  Qed.
+
+  Lemma repaired_always_answers d0 t0 (ops : list op) :
+    forall e, In e (snd (run true (init d0 t0) ops)) -> ~ is_crash e.
+  Proof. apply (repaired_never_crashes ops (init d0 t0, [])). simpl. tauto. Qed.
 End Facts.
